@@ -13,6 +13,11 @@
 //	         gorm's MySQL dialector normally sits on; the log is what a database
 //	         server would see.
 //
+// The db handed to Transact may carry a context (Case.Ctx): the in-memory pool
+// ignores it (like any pool that is not database/sql, it never finishes a
+// transaction by itself), database/sql refuses to begin on a finished context and
+// rolls a begun transaction back from its own goroutine once the context is over.
+//
 // Both run under mysql.New(mysql.Config{Conn: …, SkipInitializeWithVersion: true}).
 package c18transact
 
@@ -22,7 +27,11 @@ import (
 	"database/sql/driver"
 	"errors"
 	"fmt"
+	"os"
+	"strconv"
 	"strings"
+	"sync"
+	"time"
 
 	"github.com/pinealctx/neptune/store/gormx"
 	"github.com/pinealctx/neptune/ulog"
@@ -69,9 +78,22 @@ type Step struct {
 	Sub  []Step `json:"sub,omitempty"`
 }
 
+// Context modes of the *gorm.DB handed to Transact.
+const (
+	CtxNone      = "none"      // db as opened (context.Background()); also the meaning of ""
+	CtxLive      = "live"      // db.WithContext(cancellable context), never cancelled while Transact runs
+	CtxCancelled = "cancelled" // cancelled before Transact is called
+	CtxDeadline  = "deadline"  // deadline long expired before Transact is called
+	CtxStep      = "step"      // leaf CancelAt cancels it right after its Exec, then behaves as its kind
+)
+
+var CtxModes = []string{CtxNone, CtxLive, CtxCancelled, CtxDeadline, CtxStep}
+
 type Case struct {
 	Backend      string `json:"backend"` // "pool" | "sqldrv"
 	Steps        []Step `json:"steps"`   // the fnList handed to Transact
+	Ctx          string `json:"ctx,omitempty"`
+	CancelAt     int    `json:"cancel_at,omitempty"` // Ctx "step": number of the cancelling leaf
 	BeginFail    bool   `json:"begin_fail"`
 	CommitFail   bool   `json:"commit_fail"`
 	RollbackFail bool   `json:"rollback_fail"`
@@ -107,12 +129,38 @@ type faults struct {
 	exec                    map[string]int // query -> leaf index whose Exec fails
 }
 
+// eventLog is written by the goroutine running Transact and, on the database/sql
+// fake with a cancelled context, by database/sql's own rollback goroutine.
 type eventLog struct {
-	ev []string
-	f  faults
+	mu       sync.Mutex
+	ev       []string
+	f        faults
+	finished chan struct{} // closed by the first Commit/Rollback that reaches the fake
+	once     sync.Once
 }
 
-func (l *eventLog) add(format string, args ...any) { l.ev = append(l.ev, fmt.Sprintf(format, args...)) }
+func (l *eventLog) add(format string, args ...any) {
+	l.mu.Lock()
+	l.ev = append(l.ev, fmt.Sprintf(format, args...))
+	l.mu.Unlock()
+}
+
+func (l *eventLog) snapshot() []string {
+	l.mu.Lock()
+	defer l.mu.Unlock()
+	return append([]string(nil), l.ev...)
+}
+
+func (l *eventLog) has(ev string) bool {
+	for _, e := range l.snapshot() {
+		if e == ev {
+			return true
+		}
+	}
+	return false
+}
+
+func (l *eventLog) finish() { l.once.Do(func() { close(l.finished) }) }
 
 func (l *eventLog) begin() error {
 	if l.f.begin {
@@ -124,6 +172,7 @@ func (l *eventLog) begin() error {
 }
 
 func (l *eventLog) commit() error {
+	defer l.finish()
 	if l.f.commit {
 		l.add("Commit!fail")
 		return txError{"commit"}
@@ -133,6 +182,7 @@ func (l *eventLog) commit() error {
 }
 
 func (l *eventLog) rollback() error {
+	defer l.finish()
 	if l.f.rollback {
 		l.add("Rollback!fail")
 		return txError{"rollback"}
@@ -339,10 +389,13 @@ func panicValue(pv string, i int) (v any, token string) {
 
 // run is the per-case recorder the step closures write to.
 type run struct {
-	log      *eventLog
-	leaves   []leaf
-	next     int           // next leaf number while building
-	returned map[int]error // what leaf i returned (execfail returns gorm's error)
+	log       *eventLog
+	leaves    []leaf
+	next      int           // next leaf number while building
+	returned  map[int]error // what leaf i returned (execfail returns gorm's error)
+	cancelAt  int           // leaf that cancels the context after its Exec (-1: none)
+	cancel    context.CancelFunc
+	cancelled bool // the cancelling step really ran (harness fact, not the model)
 }
 
 func (r *run) build(steps []Step) []gormx.GormProcFn {
@@ -363,6 +416,10 @@ func (r *run) leafFn(i int, s Step) gormx.GormProcFn {
 	return func(txn *gorm.DB) error {
 		r.log.add("Call %d", i)
 		execErr := txn.Exec(fmt.Sprintf("STEP %d", i)).Error
+		if i == r.cancelAt && r.cancel != nil {
+			r.cancel() // the context of the db handed to Transact is over from here on
+			r.cancelled = true
+		}
 		switch s.Kind {
 		case KErr:
 			r.returned[i] = stepError{i}
@@ -382,6 +439,28 @@ func (r *run) leafFn(i int, s Step) gormx.GormProcFn {
 	}
 }
 
+const never = int(^uint(0) >> 1) // "the context is never cancelled"
+
+// asyncWait bounds the wait for database/sql's own rollback goroutine; running
+// into it is an infrastructure outcome (exit 2), never a verdict.
+var asyncWait = 60 * time.Second
+
+func infra(format string, args ...any) {
+	fmt.Printf("VERIF-INFRA: c18transact: "+format+"\n", args...)
+	os.Exit(2)
+}
+
+// stepIndex parses "Call 3", "Exec STEP 3", "Exec STEP 3!fail".
+func stepIndex(ev string) int {
+	ev = strings.TrimSuffix(ev, "!fail")
+	i := strings.LastIndexByte(ev, ' ')
+	n, err := strconv.Atoi(ev[i+1:])
+	if err != nil {
+		return -1
+	}
+	return n
+}
+
 // Exec runs one case and judges it.
 func Exec(c Case) *vkit.Result {
 	res := &vkit.Result{}
@@ -390,16 +469,25 @@ func Exec(c Case) *vkit.Result {
 		res.Skip("unknown backend (ran on pool)")
 		backend = "pool"
 	}
+	mode := c.Ctx
+	switch mode {
+	case "":
+		mode = CtxNone
+	case CtxNone, CtxLive, CtxCancelled, CtxDeadline, CtxStep:
+	default:
+		res.Skip("unknown context mode (ran without a context)")
+		mode = CtxNone
+	}
 	var leaves []leaf
 	leaves = flatten(c.Steps, leaves, &res.Skipped)
-	// top-level list as Transact will see it (unknown kinds dropped)
-	log := &eventLog{f: faults{begin: c.BeginFail, commit: c.CommitFail, rollback: c.RollbackFail, exec: map[string]int{}}}
+	log := &eventLog{finished: make(chan struct{}),
+		f: faults{begin: c.BeginFail, commit: c.CommitFail, rollback: c.RollbackFail, exec: map[string]int{}}}
 	for i, l := range leaves {
 		if l.kind == KExecFail {
 			log.f.exec[fmt.Sprintf("STEP %d", i)] = i
 		}
 	}
-	r := &run{log: log, leaves: leaves, returned: map[int]error{}}
+	r := &run{log: log, leaves: leaves, returned: map[int]error{}, cancelAt: -1}
 	fns := r.build(c.Steps)
 
 	db, closeFn, err := openGorm(backend, log)
@@ -407,8 +495,26 @@ func Exec(c Case) *vkit.Result {
 	if err != nil {
 		panic(fmt.Sprintf("harness: gorm.Open on the %s fake failed: %v", backend, err))
 	}
-	if len(log.ev) != 0 {
-		panic(fmt.Sprintf("harness: gorm.Open touched the fake: %v", log.ev))
+	if len(log.snapshot()) != 0 {
+		panic(fmt.Sprintf("harness: gorm.Open touched the fake: %v", log.snapshot()))
+	}
+
+	// ---- the context of the db handed to Transact ------------------------------
+	switch mode {
+	case CtxLive, CtxStep, CtxCancelled:
+		ctx, cancel := context.WithCancel(context.Background())
+		defer cancel()
+		if mode == CtxCancelled {
+			cancel()
+		}
+		if mode == CtxStep {
+			r.cancelAt, r.cancel = c.CancelAt, cancel
+		}
+		db = db.WithContext(ctx)
+	case CtxDeadline:
+		ctx, cancel := context.WithDeadline(context.Background(), time.Unix(1, 0)) // long past: Err() is DeadlineExceeded at once
+		defer cancel()
+		db = db.WithContext(ctx)
 	}
 
 	// ---- run -----------------------------------------------------------------
@@ -424,9 +530,27 @@ func Exec(c Case) *vkit.Result {
 		got = gormx.Transact(db, fns...)
 		didEscape = false
 	}()
-	events := log.ev
+	// Under database/sql a transaction whose context is over is rolled back by
+	// database/sql's own goroutine (Tx.awaitDone), possibly after Transact returned.
+	// That goroutine is certain to finish the transaction whatever Transact did, so
+	// this wait always ends; the time limit is only a safety net.
+	ctxOver := mode == CtxCancelled || mode == CtxDeadline || r.cancelled
+	async := backend == "sqldrv" && ctxOver
+	if async && log.has("Begin") {
+		select {
+		case <-log.finished:
+		default:
+			res.Class("sqldrv: finish still outstanding when Transact returned (database/sql's own rollback)")
+		}
+		select {
+		case <-log.finished:
+		case <-time.After(asyncWait):
+			infra("database/sql did not finish the transaction of a cancelled context within %v (case %+v)", asyncWait, c)
+		}
+	}
+	events := log.snapshot()
 
-	// ---- expectation from the statement ---------------------------------------
+	// ---- the model --------------------------------------------------------------
 	nTop := len(fns)
 	first := -1 // first failing leaf
 	for i, l := range leaves {
@@ -435,47 +559,56 @@ func Exec(c Case) *vkit.Result {
 			break
 		}
 	}
-	var want []string
-	var wantFinish string
+	last := len(leaves) - 1 // last leaf that must run
+	if first >= 0 {
+		last = first
+	}
+	// cancelIdx: the leaf after whose Exec the context is over (-1: before Transact)
+	cancelIdx := never
 	switch {
-	case nTop == 0:
-	case c.BeginFail:
-		want = append(want, "Begin!fail")
-	default:
-		want = append(want, "Begin")
-		last := len(leaves) - 1
-		if first >= 0 {
-			last = first
+	case mode == CtxCancelled || mode == CtxDeadline:
+		cancelIdx = -1
+	case mode == CtxStep && c.CancelAt >= 0 && c.CancelAt <= last:
+		cancelIdx = c.CancelAt
+	}
+	ctxDone := cancelIdx != never // over by the time the transaction has to be finished
+	wantCommit, wantRollback := "Commit", "Rollback"
+	if c.CommitFail {
+		wantCommit = "Commit!fail"
+	}
+	if c.RollbackFail {
+		wantRollback = "Rollback!fail"
+	}
+	execEvent := func(i int) string {
+		if leaves[i].kind == KExecFail {
+			return fmt.Sprintf("Exec STEP %d!fail", i)
 		}
-		for i := 0; i <= last; i++ {
-			want = append(want, fmt.Sprintf("Call %d", i))
-			if leaves[i].kind == KExecFail {
-				want = append(want, fmt.Sprintf("Exec STEP %d!fail", i))
-			} else {
-				want = append(want, fmt.Sprintf("Exec STEP %d", i))
+		return fmt.Sprintf("Exec STEP %d", i)
+	}
+	// under database/sql a statement issued on a cancelled context need not reach the driver
+	execOptional := func(i int) bool { return backend == "sqldrv" && i > cancelIdx }
+	wantStepsUpTo := func(j int) []string {
+		var w []string
+		for i := 0; i <= j; i++ {
+			w = append(w, fmt.Sprintf("Call %d", i))
+			if !execOptional(i) {
+				w = append(w, execEvent(i))
 			}
 		}
-		if first < 0 {
-			wantFinish = "Commit"
-			if c.CommitFail {
-				wantFinish = "Commit!fail"
-			}
-		} else {
-			wantFinish = "Rollback"
-			if c.RollbackFail {
-				wantFinish = "Rollback!fail"
-			}
-		}
-		want = append(want, wantFinish)
+		return w
 	}
 
 	// ---- classes and the non-trivial rule ---------------------------------------
 	res.Class("backend:" + backend)
+	res.Class("ctx:" + mode)
 	res.Class(fmt.Sprintf("top-level steps:%s", bucket(nTop)))
-	began := nTop > 0 && !c.BeginFail
+	beginRefused := backend == "sqldrv" && cancelIdx == -1 // database/sql refuses to begin on a finished context
+	began := nTop > 0 && !c.BeginFail && !beginRefused
 	switch {
 	case nTop == 0:
 		res.Class("no steps")
+	case beginRefused:
+		res.Class("sqldrv: begin refused, context already over")
 	case c.BeginFail:
 		res.Class("begin fails")
 	case first < 0 && c.CommitFail:
@@ -516,6 +649,26 @@ func Exec(c Case) *vkit.Result {
 			res.Class("a second failing step after the first")
 		}
 	}
+	if began && ctxDone {
+		switch {
+		case first >= 0 && cancelIdx == first:
+			res.Class("ctx over + failure: the failing step itself cancels (" + leaves[first].kind + ")")
+		case first >= 0 && cancelIdx >= 0:
+			res.Class("ctx over + failure: cancelled by an earlier step")
+		case first >= 0:
+			res.Class("ctx over + failure: over before Transact")
+		case backend == "sqldrv":
+			res.Class("ctx over + all steps ok (sqldrv: commit may be refused)")
+		default:
+			res.Class("ctx over + all steps ok (pool: commit owed)")
+		}
+		if first >= 0 {
+			res.Class("ctx over + failure on " + backend)
+		}
+	}
+	if mode == CtxStep && cancelIdx == never {
+		res.Class("ctx:step never reached (acts as live)")
+	}
 	if d := depth(c.Steps); d > 0 {
 		res.Class(fmt.Sprintf("Combine depth:%s", bucket(d)))
 		if hasEmptyGroup(c.Steps) {
@@ -525,11 +678,15 @@ func Exec(c Case) *vkit.Result {
 			res.Class("first failure inside a Combine")
 		}
 	}
-	res.NonTrivial = began && (first >= 1 || (first < 0 && c.CommitFail) || (first >= 0 && c.RollbackFail))
+	res.NonTrivial = began && (first >= 1 || (first < 0 && c.CommitFail) || (first >= 0 && c.RollbackFail) || ctxDone)
 
 	// ---- oracle -------------------------------------------------------------------
 	show := func() string {
-		return fmt.Sprintf("\n expected events: %v\n observed events: %v\n returned error:  %v", want, events, got)
+		ctxTxt := mode
+		if mode == CtxStep {
+			ctxTxt = fmt.Sprintf("cancelled by step %d after its Exec", c.CancelAt)
+		}
+		return fmt.Sprintf("\n backend %s, context: %s\n observed events: %v\n returned error:  %v", backend, ctxTxt, events, got)
 	}
 	if didEscape {
 		return res.Failf("panic-escaped", "Transact let a panic escape: %v%s", escaped, show())
@@ -542,18 +699,24 @@ func Exec(c Case) *vkit.Result {
 		}
 	}
 	var begins, stepEv, finishes []string
+	var calls []int
 	for _, e := range events {
 		switch {
 		case strings.HasPrefix(e, "Begin"):
 			begins = append(begins, e)
 		case strings.HasPrefix(e, "Commit"), strings.HasPrefix(e, "Rollback"):
 			finishes = append(finishes, e)
+		case strings.HasPrefix(e, "Call "):
+			calls = append(calls, stepIndex(e))
+			stepEv = append(stepEv, e)
 		default:
+			if execOptional(stepIndex(e)) {
+				continue
+			}
 			stepEv = append(stepEv, e)
 		}
 	}
-	switch {
-	case nTop == 0:
+	if nTop == 0 {
 		if len(events) != 0 {
 			return res.Failf("no-steps/events", "Transact without steps must not touch the database%s", show())
 		}
@@ -561,56 +724,106 @@ func Exec(c Case) *vkit.Result {
 			return res.Failf("no-steps/result", "Transact without steps returned %v, want nil", got)
 		}
 		return res
-	case c.BeginFail:
-		if len(begins) != 1 {
-			return res.Failf("begin/count", "%d begin attempts, want 1%s", len(begins), show())
+	}
+	// -- begin
+	if len(begins) > 1 {
+		return res.Failf("begin/count", "%d begin attempts, want 1%s", len(begins), show())
+	}
+	if len(begins) == 0 && cancelIdx != -1 {
+		return res.Failf("begin/count", "no begin attempt although steps were supplied%s", show())
+	}
+	// (with a context that is over before Transact is called, not even trying to begin
+	// is within the statement: no transaction is started, so none has to be finished)
+	if len(begins) == 1 {
+		wantBegin := "Begin"
+		if c.BeginFail {
+			wantBegin = "Begin!fail"
 		}
+		if begins[0] != wantBegin {
+			panic(fmt.Sprintf("harness: begin event %q, the fake should have produced %q", begins[0], wantBegin))
+		}
+	}
+	if len(begins) == 0 || c.BeginFail {
 		if len(stepEv) != 0 {
-			return res.Failf("begin-fail/step-ran", "a step ran although the transaction could not be begun%s", show())
+			return res.Failf("begin-fail/step-ran", "a step ran although no transaction was begun%s", show())
 		}
 		if len(finishes) != 0 {
 			return res.Failf("begin-fail/finish", "a transaction that never began was finished%s", show())
 		}
-		if !errors.Is(got, txError{"begin"}) {
+		if len(begins) == 1 && !errors.Is(got, txError{"begin"}) {
 			return res.Failf("begin-fail/result", "result is not the begin error%s", show())
+		}
+		if got == nil {
+			return res.Failf("begin-fail/result", "no transaction was begun, no step ran, yet Transact returned nil%s", show())
 		}
 		return res
 	}
-	if len(begins) != 1 {
-		return res.Failf("begin/count", "%d begins, want 1%s", len(begins), show())
+	if events[0] != "Begin" {
+		return res.Failf("events/order", "Begin must come first%s", show())
 	}
-	wantSteps := want[1 : len(want)-1]
+	// -- steps: 0..last once each, in order, none after the first failure. Once the
+	// context is over, giving up before the remaining steps (and rolling back) is also
+	// within the statement; committing without them is not.
+	wantSteps := wantStepsUpTo(last)
+	aborted := false
 	if !equalStrings(stepEv, wantSteps) {
-		site := "steps/order"
-		if len(stepEv) > len(wantSteps) && equalStrings(stepEv[:len(wantSteps)], wantSteps) {
-			if first >= 0 {
-				site = "steps/ran-after-failure"
-			} else {
-				site = "steps/ran-twice"
+		j := len(calls) - 1
+		if ctxDone && j >= cancelIdx && j < last && equalStrings(stepEv, wantStepsUpTo(j)) {
+			aborted = true
+			res.Class("gave up after the context was over")
+		} else {
+			site := "steps/order"
+			if len(stepEv) > len(wantSteps) && equalStrings(stepEv[:len(wantSteps)], wantSteps) {
+				if first >= 0 {
+					site = "steps/ran-after-failure"
+				} else {
+					site = "steps/ran-twice"
+				}
+			} else if len(stepEv) < len(wantSteps) && equalStrings(stepEv, wantSteps[:len(stepEv)]) {
+				site = "steps/missing"
 			}
-		} else if len(stepEv) < len(wantSteps) && equalStrings(stepEv, wantSteps[:len(stepEv)]) {
-			site = "steps/missing"
+			return res.Failf(site, "steps 0..%d must run once each, in order, and none after the first failure\n expected step events: %v%s", last, wantSteps, show())
 		}
-		return res.Failf(site, "steps 0..%d must run once each, in order, and none after the first failure%s", len(wantSteps)/2-1, show())
+	}
+	// -- exactly one finish, of the right kind
+	allowed := []string{wantRollback}
+	if first < 0 && !aborted {
+		allowed = []string{wantCommit}
+		if backend == "sqldrv" && ctxDone {
+			// database/sql refuses to commit on a finished context and rolls back itself
+			allowed = []string{wantCommit, wantRollback}
+		}
+		if ctxDone && leaflessGroupAfter(c.Steps, cancelIdx) {
+			// a supplied step without any leaf (an empty Combine()) lies behind the point
+			// where the context ended: whether it ran is not observable, so giving up in
+			// front of it (rollback, error) cannot be told from running it
+			allowed = []string{wantCommit, wantRollback}
+			res.Class("ctx over + all leaves ok, an empty Combine() follows (either finish accepted)")
+		}
 	}
 	if len(finishes) != 1 {
-		return res.Failf("finish/count", "the transaction was finished %d times (%v), want exactly once (%s)%s", len(finishes), finishes, wantFinish, show())
+		return res.Failf("finish/count", "the transaction was finished %d times (%v), want exactly once (%s)%s", len(finishes), finishes, strings.Join(allowed, " or "), show())
 	}
-	if finishes[0] != wantFinish {
-		return res.Failf("finish/kind", "the transaction was finished by %s, want %s%s", finishes[0], wantFinish, show())
+	finish := finishes[0]
+	if finish != allowed[0] && finish != allowed[len(allowed)-1] {
+		return res.Failf("finish/kind", "the transaction was finished by %s, want %s%s", finish, strings.Join(allowed, " or "), show())
 	}
-	if !equalStrings(events, want) {
-		return res.Failf("events/order", "Begin must come first and the finish last%s", show())
+	if !async && events[len(events)-1] != finish {
+		return res.Failf("events/order", "the finish must come last%s", show())
 	}
-	// result
+	// -- result
 	switch {
-	case first < 0 && !c.CommitFail:
+	case aborted:
+		if got == nil {
+			return res.Failf("result/nil-after-abort", "steps %d..%d never ran, the transaction was rolled back, yet Transact returned nil%s", len(calls), last, show())
+		}
+	case first < 0 && finish == "Commit":
 		if got != nil {
 			return res.Failf("result/commit-ok", "every step succeeded and the commit succeeded, but Transact returned an error%s", show())
 		}
 	case first < 0:
 		if got == nil {
-			return res.Failf("result/commit-failed", "the commit failed but Transact returned nil%s", show())
+			return res.Failf("result/commit-failed", "the transaction was not committed (%s) but Transact returned nil%s", finish, show())
 		}
 	default:
 		if got == nil {
@@ -702,6 +915,31 @@ func countLeaves(steps []Step) int {
 	return n
 }
 
+// leaflessGroupAfter reports whether a Combine without any leaf follows leaf
+// number idx in depth-first order (idx -1: anywhere).
+func leaflessGroupAfter(steps []Step, idx int) bool {
+	n := 0
+	var walk func([]Step) bool
+	walk = func(ss []Step) bool {
+		for _, s := range ss {
+			switch s.Kind {
+			case KGroup:
+				if countLeaves(s.Sub) == 0 {
+					if n > idx {
+						return true
+					}
+				} else if walk(s.Sub) {
+					return true
+				}
+			case KOk, KErr, KPanic, KExecFail:
+				n++
+			}
+		}
+		return false
+	}
+	return walk(steps)
+}
+
 // insideGroup reports whether leaf number idx lies inside some Combine.
 func insideGroup(steps []Step, idx int) bool {
 	n := 0
@@ -727,8 +965,16 @@ func insideGroup(steps []Step, idx int) bool {
 // the complete enumeration
 
 // EnumCases lists, for each backend, every step list of length 0..maxN over
-// {ok, error, panic} combined with begin/commit/rollback each failing or not.
-func EnumCases(maxN int) []Case {
+// {ok, error, panic} combined with begin/commit/rollback each failing or not,
+// without a context; and the same for length 0..maxNCtx combined with every
+// context mode: live, cancelled before, deadline expired before, cancelled inside
+// step k for every k < n.
+func EnumCases(maxN, maxNCtx int) []Case {
+	out := enumCases(maxN, false)
+	return append(out, enumCases(maxNCtx, true)...)
+}
+
+func enumCases(maxN int, withCtx bool) []Case {
 	kinds := []Step{{Kind: KOk}, {Kind: KErr}, {Kind: KPanic, PV: PVString}}
 	var out []Case
 	for _, be := range Backends {
@@ -742,9 +988,22 @@ func EnumCases(maxN int) []Case {
 				for i, x := 0, code; i < n; i, x = i+1, x/len(kinds) {
 					steps[i] = kinds[x%len(kinds)]
 				}
-				for f := 0; f < 8; f++ {
-					out = append(out, Case{Backend: be, Steps: steps,
-						BeginFail: f&1 != 0, CommitFail: f&2 != 0, RollbackFail: f&4 != 0})
+				type cm struct {
+					mode string
+					at   int
+				}
+				modes := []cm{{"", 0}}
+				if withCtx {
+					modes = []cm{{CtxLive, 0}, {CtxCancelled, 0}, {CtxDeadline, 0}}
+					for k := 0; k < n; k++ {
+						modes = append(modes, cm{CtxStep, k})
+					}
+				}
+				for _, m := range modes {
+					for f := 0; f < 8; f++ {
+						out = append(out, Case{Backend: be, Steps: steps, Ctx: m.mode, CancelAt: m.at,
+							BeginFail: f&1 != 0, CommitFail: f&2 != 0, RollbackFail: f&4 != 0})
+					}
 				}
 			}
 		}
@@ -830,6 +1089,36 @@ func Gen(t *rapid.T) Case {
 	} else {
 		c.Steps = genTree(t, leaves, 3)
 	}
+	// context of the db (rapid favours small draws, so "none" comes out near 1/3): none, live, cancelled, deadline, a step cancels
+	first, nLeaves := -1, len(leaves)
+	for i, l := range leaves {
+		if l.Kind != KOk {
+			first = i
+			break
+		}
+	}
+	switch k := rapid.IntRange(0, 19).Draw(t, "ctx"); {
+	case k <= 2:
+	case k <= 4:
+		c.Ctx = CtxLive
+	case k <= 7:
+		c.Ctx = CtxCancelled
+	case k <= 9:
+		c.Ctx = CtxDeadline
+	default:
+		c.Ctx = CtxStep
+		if nLeaves > 0 {
+			// mostly at or before the first failing step, so that the cancellation is reached
+			switch p := rapid.IntRange(0, 5).Draw(t, "cancelPos"); {
+			case p <= 1 && first >= 0:
+				c.CancelAt = first
+			case p <= 3 && first >= 1:
+				c.CancelAt = rapid.IntRange(0, first-1).Draw(t, "cancelBefore")
+			default:
+				c.CancelAt = rapid.IntRange(0, nLeaves-1).Draw(t, "cancelAt")
+			}
+		}
+	}
 	c.BeginFail = rapid.IntRange(0, 11).Draw(t, "beginFail") == 11
 	c.CommitFail = rapid.IntRange(0, 2).Draw(t, "commitFail") == 2
 	c.RollbackFail = rapid.IntRange(0, 2).Draw(t, "rollbackFail") == 2
@@ -850,18 +1139,18 @@ func genPos(t *rapid.T, n int) int {
 // ---------------------------------------------------------------------------
 // parts
 
-const ntRule = "Non-trivial: the transaction was begun and (the first failing step has index >= 1, or every step succeeded and the commit fails, or a step failed and the rollback fails); distinct = distinct case JSON"
+const ntRule = "Non-trivial: the transaction was begun and (the first failing step has index >= 1, or every step succeeded and the commit fails, or a step failed and the rollback fails, or the context of the db is over by the time the transaction has to be finished); distinct = distinct case JSON"
 
 var PartEnum = &vkit.Part[Case]{
 	Property: Property, Name: "outcomes",
-	Rule:  "complete enumeration, once per fake (in-memory gorm.ConnPool with ConnPoolBeginner/TxCommitter; in-process database/sql driver under *sql.DB), both below gorm's MySQL dialector: every step list of length 0..4 over {return nil, return an error, panic} x begin {ok, fails} x commit {ok, fails} x rollback {ok, fails} = 2 x 968 cases; each step logs its call and issues Exec(\"STEP i\"); the Begin/Exec/Commit/Rollback calls reaching the fake are compared with the sequence the statement prescribes, the returned error with the first failing step. " + ntRule,
+	Rule:  "complete enumeration, once per fake (in-memory gorm.ConnPool with ConnPoolBeginner/TxCommitter; in-process database/sql driver under *sql.DB), both below gorm's MySQL dialector: every step list of length 0..4 over {return nil, return an error, panic} x begin {ok, fails} x commit {ok, fails} x rollback {ok, fails} without a context (2 x 968 cases), and every step list of length 0..3 over the same outcomes x the db carrying a context that is {live, cancelled before Transact, past its deadline before Transact, cancelled by step k right after its Exec for every k < n} x the same begin/commit/rollback faults (2 x 1776 cases); each step logs its call and issues Exec(\"STEP i\"); the Begin/Exec/Commit/Rollback calls reaching the fake are compared with the sequence the statement prescribes, the returned error with the first failing step. " + ntRule,
 	Quick: 1, Thorough: 1,
 	Gen: Gen, Exec: Exec,
 }
 
 var PartRandom = &vkit.Part[Case]{
 	Property: Property, Name: "random",
-	Rule:  "rapid: 1..12 leaf steps (none at all in 1/20 of the cases; all ok / one failure at first, last or drawn position / two failures / each failing with p=1/3; failure = returned error, Exec failing inside the fake and handed back through gorm, or a panic with a string, error, int, struct, nil or run-time-error value) wrapped into a random gormx.Combine tree of depth <= 3 with empty Combine() calls, x backend x begin fails (1/12) x commit fails (1/3) x rollback fails (1/3); same oracle as the enumeration. " + ntRule,
+	Rule:  "rapid: 1..12 leaf steps (none at all in 1/20 of the cases; all ok / one failure at first, last or drawn position / two failures / each failing with p=1/3; failure = returned error, Exec failing inside the fake and handed back through gorm, or a panic with a string, error, int, struct, nil or run-time-error value) wrapped into a random gormx.Combine tree of depth <= 3 with empty Combine() calls, x context of the db (none about 1/3, live, cancelled before Transact, deadline expired before Transact, cancelled inside a step about 1/3 - mostly the first failing step or one before it) x backend x begin fails (1/12) x commit fails (1/3) x rollback fails (1/3); same oracle as the enumeration. " + ntRule,
 	Quick: 20000, Thorough: 20000,
 	Gen: Gen, Exec: Exec,
 }
